@@ -414,6 +414,11 @@ func compositeStream(x *decimal.Decimal, chunk int, cnt map[string]int) (msg str
 	if err := enc.Encode(&m2); err != nil {
 		return "gob.Encoder failed on a struct holding Decimals: " + err.Error()
 	}
+	// a third message whose value field was never set (the default Decimal)
+	m3 := wireMsg{P: x, K: 3}
+	if err := enc.Encode(&m3); err != nil {
+		return "gob.Encoder failed on a struct holding a default Decimal: " + err.Error()
+	}
 	data := append([]byte(nil), buf.Bytes()...)
 	// (a) fresh destinations
 	{
@@ -461,6 +466,19 @@ func compositeStream(x *decimal.Decimal, chunk int, cnt map[string]int) (msg str
 		}
 		if d.N == nil || !sameObs(d.N, x) {
 			return fmt.Sprintf("reused destination, pointer that was nil: sent %s, got %s", observe(x), obsP(d.N))
+		}
+		// third message: V is the default Decimal; the destination's V keeps its
+		// precision and mode and becomes +0
+		vp, vm = d.V.Prec(), d.V.Mode()
+		pp, pm = d.P.Prec(), d.P.Mode()
+		if err := dec.Decode(&d); err != nil {
+			return fmt.Sprintf("decoding the third struct (default Decimal by value) into the same destination failed: %v", err)
+		}
+		if w := presetWant(new(decimal.Decimal), vp, vm); !sameObs(&d.V, w) {
+			return fmt.Sprintf("reused destination: field by value held %s (prec %d), then received the default Decimal: got %s, want %s", observe(y), vp, observe(&d.V), observe(w))
+		}
+		if w := presetWant(x, pp, pm); !sameObs(d.P, w) {
+			return fmt.Sprintf("reused destination, pointer field, third message: got %s, want %s", obsP(d.P), observe(w))
 		}
 		cnt["roundtrip_composite_reused"]++
 	}
@@ -642,6 +660,22 @@ func runGob(sc *Scenario) *Outcome {
 			}
 			out.Counters["roundtrip_preset_receiver"]++
 		}
+	}
+	// the default Decimal into a preset receiver: precision and mode are the receiver's
+	if bs.RecvPrec != 0 {
+		e0, err := new(decimal.Decimal).GobEncode()
+		if err != nil {
+			return viol("encode-error", "GobEncode of the default Decimal failed: "+err.Error(), rt)
+		}
+		z := new(decimal.Decimal).SetMode(decimal.RoundingMode(bs.RecvMode)).SetPrec(uint(bs.RecvPrec))
+		z.SetInt64(-7)
+		if err, pm := safeDecode(z, ownBytes(e0)); err != nil || pm != "" {
+			return viol("roundtrip", fmt.Sprintf("decoding the encoding of the default Decimal failed: %v %s", err, pm), rt)
+		}
+		if zo := observe(z); zo.Form != 0 || zo.Neg || zo.Prec != uint(bs.RecvPrec) || zo.Mode != decimal.RoundingMode(bs.RecvMode) {
+			return viol("roundtrip-rounded", fmt.Sprintf("decoding the default Decimal into a receiver with prec=%d mode=%d gave %s (the receiver's precision and mode must be kept)", bs.RecvPrec, bs.RecvMode, zo), rt)
+		}
+		out.Counters["roundtrip_default_into_preset"]++
 	}
 	// through a real gob stream with benign chunking, and text/JSON forms
 	{
